@@ -28,6 +28,12 @@ def run(ck: Check, prog: Program) -> None:
     onr = ci.methods.get('_on_request')
     if mr is None or onr is None:
         raise AnalysisError('PjRpcMocker._match_request / _on_request not found')
+    # helpers extracted from the two operations (e.g. a shared "call with params" function) are looked at as part of them;
+    # _cleanup_matches is an anchor of its own and stays a call
+    from ..inline import inlined_program
+    prog = inlined_program(prog, [mr.qualname, onr.qualname], keep=[f'{MOCKER}._cleanup_matches'])
+    ci = prog.cls(MOCKER)
+    mr, onr = ci.methods['_match_request'], ci.methods['_on_request']
     ck.functions |= {mr.qualname, onr.qualname}
     cfg = CFG(mr, prog)
     # ---- ROTATE: abstract execution of the list operations on the patch list ----------------------------------
@@ -159,17 +165,59 @@ def run(ck: Check, prog: Program) -> None:
             ckd = classify_cond(prog, onr, c.ast)
             if ckd.kind == 'is-none' and ckd.subject == 'matches':
                 miss_nodes.append((c, ckd))
-    if len(miss_nodes) != 1:
+    if not miss_nodes:
         raise AnalysisError(f'{onr.qualname}: endpoint-miss test not recognised')
-    c, ckd = miss_nodes[0]
-    miss_edge = [e for e in cfg2.succ[c.id] if e.label in ('T', 'F') and (e.label == 'T') != ckd.negated][0]
-    region = cfg2.reachable(miss_edge.dst) | {miss_edge.dst.id}
-    hit_edge = [e for e in cfg2.succ[c.id] if e.label in ('T', 'F') and e is not miss_edge][0]
-    region -= (cfg2.reachable(hit_edge.dst) | {hit_edge.dst.id})
-    has_pass = any(isinstance(cfg2.nodes[i].ast, ast.Return) and 'temp_original' in norm(cfg2.nodes[i].ast) for i in region)
-    has_refuse = any(isinstance(cfg2.nodes[i].ast, ast.Raise) and 'ConnectionRefusedError' in norm(cfg2.nodes[i].ast) for i in region)
-    pt = [cfg2.nodes[i] for i in region if cfg2.nodes[i].kind == 'cond' and 'passthrough' in norm(cfg2.nodes[i].ast)]
-    if not (has_pass and has_refuse and pt):
+    if any('matches' in assigned_names(n) and any(n.id in cfg2.reachable(c) for c, _ in miss_nodes) for n in cfg2.stmt_nodes()):
+        raise AnalysisError(f'{onr.qualname}: `matches` is reassigned after the endpoint-miss test')
+    miss_label = {c.id: ('F' if k.negated else 'T') for c, k in miss_nodes}
+
+    def consistent(miss: bool):
+        # the same test on the unchanged variable has the same outcome wherever it is repeated
+        def ok(e: Edge) -> bool:
+            if e.label == 'exc':
+                return False
+            if e.src.id in miss_label and e.label in ('T', 'F'):
+                return (e.label == miss_label[e.src.id]) == miss
+            return True
+        return ok
+    miss_region: Set[int] = set()
+    hit_region: Set[int] = set()
+    for c, k in miss_nodes:
+        for e in cfg2.succ[c.id]:
+            if e.label not in ('T', 'F'):
+                continue
+            is_miss = e.label == miss_label[c.id]
+            reg = {e.dst.id} | cfg2.reachable(e.dst, edge_ok=consistent(is_miss))
+            if is_miss:
+                miss_region |= reg
+            else:
+                hit_region |= reg
+    pass_nodes = [n for n in cfg2.stmt_nodes() if isinstance(n.ast, ast.Return) and 'temp_original' in norm(n.ast)]
+    refuse_nodes = [n for n in cfg2.stmt_nodes() if isinstance(n.ast, ast.Raise) and 'ConnectionRefusedError' in norm(n.ast)]
+    match_nodes = [n for n in cfg2.stmt_nodes() if any(dotted(cc.func) == 'self._match_request' for cc in calls_in(n))]
+    only_miss = miss_region - hit_region
+
+    def pt_state(n: Node) -> Optional[bool]:
+        for g in guard_edges(cfg2, n):
+            k = classify_cond(prog, onr, g.src.ast)
+            if k.kind == 'truthy' and k.subject and 'passthrough' in k.subject:
+                return (g.label == 'T') != k.negated
+        return None
+    ok_f = bool(pass_nodes) and bool(refuse_nodes) and \
+        all(n.id in only_miss and pt_state(n) is True for n in pass_nodes) and \
+        all(n.id in only_miss for n in refuse_nodes) and \
+        all(pt_state(n) is False or not any(n.id in cfg2.reachable(p_) for p_ in pass_nodes) for n in refuse_nodes) and \
+        not any(n.id in miss_region for n in match_nodes) and \
+        not any(n.id in hit_region for n in pass_nodes + refuse_nodes)
+    # on the miss side every path ends in the passthrough return or the refusal
+    if ok_f:
+        stops = pass_nodes + refuse_nodes
+        for c, k in miss_nodes:
+            for e in cfg2.succ[c.id]:
+                if e.label == miss_label[c.id]:
+                    if e.dst not in stops and cfg2.exit.id in cfg2.reachable(e.dst, avoid_nodes=stops, edge_ok=consistent(True)):
+                        ok_f = False
+    if not ok_f:
         p2.append(('FALLBACKS', 'unpatched endpoint is not passed through / refused as configured', onr.node.lineno,
                    'an endpoint without patches must be passed to the original transport when passthrough is on and refused with '
                    'ConnectionRefusedError otherwise'))
